@@ -84,15 +84,15 @@ def paths(db, fn, never_false=frozenset(), this=None):
     for p in fn['params']:
         t = p['t']
         if not bound and ('_input<' in t and 'action_input' not in t) and t.startswith(('tao::pegtl::', 'const tao::pegtl::')) and t.endswith('&'):
-            f.env[p['id']] = inp; bound = True
+            EnvView(st, f.fid)[p['id']] = inp; bound = True
         elif 'action_input<' in t:
-            f.env[p['id']] = Obj(st.alloc({'__type': t, '__ai': 'param'}))
+            EnvView(st, f.fid)[p['id']] = Obj(st.alloc({'__type': t, '__ai': 'param'}))
         elif 'inputerator' in t or t in ('const char *const &', 'const char *&'):
-            f.env[p['id']] = Cur('B')
+            EnvView(st, f.fid)[p['id']] = Cur('B')
         elif t.endswith('&'):
-            f.env[p['id']] = Obj(st.alloc({'__type': t, '__state': True, '__idx': nstate})); nstate += 1
+            EnvView(st, f.fid)[p['id']] = Obj(st.alloc({'__type': t, '__state': True, '__idx': nstate})); nstate += 1
         else:
-            f.env[p['id']] = Unknown('param')
+            EnvView(st, f.fid)[p['id']] = Unknown('param')
     out = collections.Counter()
     for comp in ex.run_fn(fn, f, st):
         s = comp[-1]
